@@ -243,7 +243,7 @@ def main(tier):
         for sig, det in res:
             rep.violation(sig, det)
     rep.coverage.update({"input_cases": n, "sizes": sz, "kinds": KINDS, "algorithms": algos})
-    run_spec(rep, C01Spec(tier), "witness-histories", time_cap=300 if tier == "quick" else 3000)
+    run_spec(rep, C01Spec(tier), "witness-histories", time_cap=120 if tier == "quick" else 3000)
     from ._t import line_level_part
     line_level_part(rep, LINE_LEVEL)
     rep.assumptions += ["line level (engine L): a retrieve_object overlapping a call on another pid, one pre-emption at "
